@@ -77,6 +77,13 @@ pub fn run(ctx: &Ctx) -> i32 {
     let n: u64 = accs.iter().map(|a| a.evals).sum();
     let mut col = Collector::new(); let (mut acc, mut rej) = (0u64, 0u64); let mut shapes = std::collections::HashSet::new();
     for a in accs { col.merge(a.col); acc += a.accepted; rej += a.rejected; shapes.extend(a.shapes); }
+    // self-check against vacuity: every envelope variant must have been accepted and round-tripped for some type
+    for w in &super::rt::WRAPS[1..] {
+        if !shapes.iter().any(|sh| sh.ends_with(&format!(":envelope:{w}"))) && !col.map.keys().any(|k| k.contains("/MT")) {
+            eprintln!("MACHINERY: envelope variant {w} was never accepted by the library -- the variant is malformed");
+            return 2;
+        }
+    }
     // ---- field level: all 114 registered types
     let mut fjobs: Vec<(&'static str, Option<&'static str>, String)> = vec![]; // (registry type, family number, content)
     for k in m1::kinds() {
